@@ -314,6 +314,7 @@ namespace riddle
                         ms.emplace_back(_method_declaration());
                         break;
                     case EQ_ID:
+                    case COMMA_ID:
                     case SEMICOLON_ID:
                         backtrack(c_pos);
                         fs.emplace_back(_field_declaration());
@@ -331,6 +332,7 @@ namespace riddle
                         ms.emplace_back(_method_declaration());
                         break;
                     case EQ_ID:
+                    case COMMA_ID:
                     case SEMICOLON_ID:
                         backtrack(c_pos);
                         fs.emplace_back(_field_declaration());
